@@ -138,6 +138,19 @@ pub const EXEMPLARS: &[&str] = &[
     "S: A; U: 'x'; terminals A: 'a';",
     "S: A; U: x=A y=A* z=U?; terminals A: /a/;",
     "S: A* A0; A0: 'b'; terminals A: 'a'; B: 'b';",
+    // reserved / implicit names in the separator position of a repetition and other odd separators
+    "S: A+[STOP];\nA: Ta;\nterminals\nTa: 'a';\n",
+    "S: A*[STOP] Tb;\nA: Ta;\nterminals\nTa: 'a';\nTb: 'b';\n",
+    "S: A+[EMPTY] Tb;\nA: Ta;\nterminals\nTa: 'a';\nTb: 'b';\n",
+    "S: A*[AUG];\nA: Ta;\nterminals\nTa: 'a';\n",
+    "S: A+[S];\nA: Ta;\nterminals\nTa: 'a';\n",
+    "S: A+[A] Tb;\nA: Ta;\nterminals\nTa: 'a';\nTb: 'b';\n",
+    "S: A?[Tb] Tb;\nA: Ta;\nterminals\nTa: 'a';\nTb: 'b';\n",
+    "S: A+[Tb, Ta];\nA: Ta;\nterminals\nTa: 'a';\nTb: 'b';\n",
+    "S: A+[Undefined];\nA: Ta;\nterminals\nTa: 'a';\n",
+    "S: 'a'+['b'];\nterminals\nTa: 'a';\nTb: 'b';\n",
+    "S: A+[Layout];\nA: Ta;\nLayout: Tb*;\nterminals\nTa: 'a';\nTb: 'b';\n",
+    "S: x=STOP? Ta;\nterminals\nTa: 'a';\n",
     // user symbols named like the helper non-terminals of the repetition sugar
     "S: A1;\nA1: A+;\nA: Ta;\nterminals\nTa: 'a';\n",
     "S: A0;\nA0: A*;\nA: Ta;\nterminals\nTa: 'a';\n",
@@ -240,6 +253,16 @@ pub fn mutate(text: &str, rng: &mut Rng) -> String {
             }
         }
         return c.into_iter().collect();
+    }
+    if r == 9 && rng.chance(0.4) {
+        // one occurrence of an identifier becomes an implicit / reserved name (any position: separator, assignment, ...)
+        let mut t = tokens(text);
+        let pos: Vec<usize> = (0..t.len()).filter(|&i| t[i].chars().next().is_some_and(|c| c.is_alphabetic()) && t[i] != "terminals").collect();
+        if !pos.is_empty() {
+            let i = *rng.pick(&pos);
+            t[i] = rng.pick(&["STOP", "EMPTY", "AUG", "AUGL", "Layout", "layout", "terminals", "S"]).to_string();
+        }
+        return t.concat();
     }
     if r == 9 {
         // a user symbol named like a generated helper of another symbol (X0, X1, XOpt, ...)
